@@ -85,6 +85,9 @@ func genBuffer(seed uint64) *BufPlan {
 	off := 8
 	drawLen := func() int {
 		rem := cur - off
+		if cur > 150000 {
+			return r.IntN(40) // keep runs small once the buffer has grown a few times
+		}
 		switch r.IntN(10) {
 		case 0:
 			return 0
